@@ -24,7 +24,14 @@ SCANNER_SEEDS = [
     ") ) )", "( ( (", "func ) (", "import ) \"x\"", "func f(a int) (b int, ...", "func f[T any](...) {}", "func f(a ...func(...))",
 ]
 
+# every kind of statement on '-', '+' and context lines (compile paths that few patches reach: unlabelled branch statements, ...)
+STMT_VOCAB = ["break", "continue", "fallthrough", "return", "goto done", "break outer", "continue outer", "done:\n\treturn", "x++", "x--", "ch <- 1", "<-ch", ";",
+              "{\n}", "go f()", "defer f()", "var v int", "const c = 1", "type T int", "if x {\n}", "if x {\n} else {\n}", "for {\n}", "for i := range xs {\n}",
+              "for range ch {\n}", "switch {\n}", "switch x {\ncase 1:\n\tbreak\n}", "switch v := x.(type) {\n}", "select {\n}", "select {\ncase <-ch:\n\tcontinue\n}",
+              "x, y = y, x", "x := 1", "x += 1", "f()", "return 1, nil", "_ = x", "var (\n\ta = 1\n)", "x <<= 2", "x &^= y", "*p = 1", "a[i] = 2", "s.f = 3", "func() {}()"]
+
 ILL_TYPED = [
+    ("", "foo(...)\n-x := 1", "... := 1", "foo()\n\tx := 1\n\t_ = x"),
     # (meta, minus, plus, file instance of minus) : metavariables where only names can go, expression results in name slots ...
     ("var x expression", "f(x)", "x.y", "f(g())"),
     ("var x expression", "f(x)", "y.x", "f(g())"),
@@ -318,6 +325,15 @@ def main():
             src = ("package p\n\nfunc f() {\n" + body % nline + "}\n").encode()
             for lp in LINE_PATCHES:
                 add("line-directive", lp, {"a.go": src})
+    for si, st in enumerate(STMT_VOCAB):
+        other = STMT_VOCAB[(si * 7 + 3) % len(STMT_VOCAB)]
+        body = "for {\n\tmark()\n\t%s\n}" % st.replace("\n", "\n\t")
+        src = ("package p\n\nfunc h() {\nouter:\n\t" + body.replace("\n", "\n\t") + "\ndone:\n\treturn\n}\n").encode()
+        for form in ("-%s\n+%s\n" % (st.replace("\n", "\n-"), other.replace("\n", "\n+")),
+                     " mark()\n-%s\n" % st.replace("\n", "\n-"),
+                     " mark()\n %s\n+added()\n" % st.replace("\n", "\n "),
+                     "-mark()\n+%s\n" % st.replace("\n", "\n+")):
+            add("stmt-vocab", ("@@\n@@\n" + form).encode(), {"a.go": src})
     ill = []
     for k in range(len(ILL_TYPED) * (5 if thorough else 2)):
         p, f = ill_typed_case(rng, k)
